@@ -281,10 +281,12 @@ class ComovingScales(Scales):
         if self.unit == Unit.kpc_h:
             scales = scales / 1000.0
 
-        comov_dist_mpc = cosmology.comoving_distance(redshift)
-        if isinstance(comov_dist_mpc, units.Quantity):
-            comov_dist_mpc = comov_dist_mpc.value
-        return scales / comov_dist_mpc
+        # transverse comoving distance, (1 + z) times the angular diameter distance;
+        # the line-of-sight comoving distance equals it only without curvature
+        ang_diam_dist_mpc = cosmology.angular_diameter_distance(redshift)
+        if isinstance(ang_diam_dist_mpc, units.Quantity):
+            ang_diam_dist_mpc = ang_diam_dist_mpc.value
+        return scales / (ang_diam_dist_mpc * (1.0 + redshift))
 
 
 class RedshiftBinningFactory:
